@@ -189,6 +189,46 @@ def builder(ctx, prog):
     for w in sorted(set(writers) - allowed):
         ctx.violation("BUILDER", "inv|" + w, "ArrayBuilder::%s writes `inited`/constructs the builder; only new (0), push (+1) and struct copies may" % w)
     ctx.instance("BUILDER", "inv", sample={"writers": sorted(writers)})
+    # clone: a fresh builder that receives elem.clone() for every element of self.as_slice(), in order, once each
+    for bdy in prog.bodies:
+        if bdy.promoted is None and bdy.key.endswith("core::clone::Clone>::clone") and "array_builder::ArrayBuilder" in bdy.key:
+            msg = None
+            try:
+                ps = sym.through_loops(bdy, prog, keep_back=True)
+            except sym.TooManyPaths:
+                ps = []
+                msg = "too many paths"
+            view = ("call", AB + "as_slice", None, ("p", 1))
+            n_back = n_ret = 0
+            for p in ps:
+                calls = [table.strip_gargs(e[2]) for e in p.events if e[0] == "call"]
+                names = [c[1].split("::")[-1] for c in calls]
+                if p.kind not in ("back", "return"):
+                    continue
+                # the traversal: a plain slice iterator (or slice patterns) over as_slice(self) - no adapter in between
+                iters = [c for c in calls if c[1].endswith("::into_iter")]
+                if iters and iters[0][3] != view:
+                    msg = msg or "iterates %s, expected self.as_slice() itself" % show(iters[0][3])
+                if any(n in ("skip", "rev", "take", "step_by", "filter", "zip", "chain") for n in names):
+                    msg = msg or "the traversal goes through an iterator adapter (%s)" % [n for n in names if n in ("skip", "rev", "take", "step_by", "filter", "zip", "chain")]
+                pushes = [c for c in calls if c[1] == AB + "push"]
+                if p.kind == "back":
+                    n_back += 1
+                    cl = [c for c in calls if c[1].endswith("Clone::clone")]
+                    if len(pushes) != 1 or len(cl) != 1 or pushes[0][4] != cl[0]:
+                        msg = msg or "an iteration must push exactly one value, the clone of the current element (pushes=%d, clones=%d)" % (len(pushes), len(cl))
+                else:
+                    n_ret += 1
+                    if pushes:
+                        msg = msg or "pushes outside the loop over the elements"
+                    new = [c for c in calls if c[1] == AB + "new"]
+                    if len(new) != 1:
+                        msg = msg or "the clone must start from ArrayBuilder::new()"
+            if not msg and (n_back == 0 or n_ret == 0):
+                msg = "no element loop found"
+            if msg:
+                ctx.violation("BUILDER", "clone", "ArrayBuilder::clone: %s" % msg, bdy.file())
+            ctx.instance("BUILDER", "clone")
     b = ctx.anchor(prog, AB + "new")
     if b is not None:
         ps = sym.paths_of(b, prog)
